@@ -90,6 +90,18 @@ def to_container(rows, kind, rng=None, dtype=None):
         return sp.csr_matrix(A)
     if kind == "coo":
         return sp.coo_array(A)
+    if kind in ("csr_zero", "lil_zero"):
+        # a sparse matrix that keeps an explicitly STORED zero (as after `Q[i, j] = 0` or setdiag(0)): the first zero off-diagonal
+        # position is written with a value and then overwritten with 0
+        C = sp.csr_array(A) if kind == "csr_zero" else sp.lil_array(A)
+        pos = [(i, j) for i in range(A.shape[0]) for j in range(A.shape[1]) if i != j and A[i, j] == 0]
+        if pos and kind == "csr_zero":
+            i, j = pos[0]
+            B = A.copy()
+            B[i, j] = 7
+            C = sp.csr_array(B)
+            C[i, j] = 0
+        return C
     if kind == "coo_dup" and A.dtype.kind != "f":
         kind = "coo"
         return sp.coo_array(A)
